@@ -200,6 +200,17 @@ var c08Ops = func() []c08Op {
 	add("ImportAlias(c/f,.)", func(w *c08World) bool { w.Alias("c/f", "."); return true })
 	add("ImportAlias(fmt,.)", func(w *c08World) bool { w.Alias("fmt", "."); return true })
 	add("Anon(z/anon)", func(w *c08World) bool { w.AnonImport("z/anon"); return true })
+	// Anon BEFORE the path is referenced is inside the property (only Anon on an already
+	// referenced path is excluded)
+	add("Anon(a/f)-if-unreferenced", func(w *c08World) bool {
+		for _, r := range w.Refs {
+			if r.Path == "a/f" {
+				return false
+			}
+		}
+		w.AnonImport("a/f")
+		return true
+	})
 	add("PackagePrefix=pkg", func(w *c08World) bool {
 		if w.F.PackagePrefix != "" {
 			return false
